@@ -1,0 +1,11 @@
+// Verification hooks. Compiled only with `--cfg vm_memory_verif`; not part of the public API.
+//! Support code for the external verification harness (`--cfg vm_memory_verif` only).
+
+use crate::address::{Address, AddressValue};
+use std::ops::{BitAnd, BitOr};
+
+/// The crate's own address-operations macro instantiated at 8 bits, so that the arithmetic it
+/// generates can be checked exhaustively (all 2^16 operand pairs).
+#[derive(Clone, Copy, Debug, Eq, PartialEq, Ord, PartialOrd)]
+pub struct VerifAddr8(pub u8);
+impl_address_ops!(VerifAddr8, u8);
